@@ -1,0 +1,42 @@
+//go:build verif
+
+// Contracts for the deductive verification machinery in /verif (comment-only; compiled only with -tags=verif).
+package security
+
+//@ spec matches(r string, p string) bool = r == p || (hasSuffix(r, "*") && hasPrefix(p, r[:len(r)-1]))
+//@ spec grants(have string, need string) bool = have == need || (need == "read" && have == "write")
+//@ spec aclApplies(res string, act string, path string, need string) bool = matches(res, path) && grants(act, need)
+
+//@ unit (*ServiceCore).checkMatches
+//@   prop C16
+//@   requires ac != nil
+//@   ensures [applies] result == aclApplies(ac.Resource, ac.Action, resource, action)
+//@   modifies none
+//@   safe slice
+
+//@ unit (*ServiceCore).CheckGranted
+//@   prop C16
+//@   requires ac != nil
+//@   ensures [decision] result == (aclApplies(ac.Resource, ac.Action, resource, action) && !ac.Deny)
+//@   modifies none
+
+// deny-overrides decision over a whole access-control list
+//@ unit (*ServiceCore).IsGranted
+//@   prop C16
+//@   requires forall i int :: 0 <= i && i < len(acl) ==> acl[i] != nil
+//@   ensures [granted-needs-entry] result ==> (exists i int :: 0 <= i && i < len(acl) && aclApplies(acl[i].Resource, acl[i].Action, resource, action) && !acl[i].Deny)
+//@   ensures [deny-overrides] result ==> !(exists i int :: 0 <= i && i < len(acl) && aclApplies(acl[i].Resource, acl[i].Action, resource, action) && acl[i].Deny)
+//@   ensures [complete] (exists i int :: 0 <= i && i < len(acl) && aclApplies(acl[i].Resource, acl[i].Action, resource, action))
+//@     | && !(exists i int :: 0 <= i && i < len(acl) && aclApplies(acl[i].Resource, acl[i].Action, resource, action) && acl[i].Deny) ==> result
+//@   modifies none
+//@   safe index
+//@   loop 1
+//@     invariant -1 <= $i && $i < len(acl)
+//@     invariant forall k int :: 0 <= k && k <= $i && aclApplies(acl[k].Resource, acl[k].Action, resource, action) ==> !acl[k].Deny
+//@     invariant granted <==> (exists k int :: 0 <= k && k <= $i && aclApplies(acl[k].Resource, acl[k].Action, resource, action))
+//@     decreases len(acl) - $i
+
+//@ assumed (*ServiceCore).GetAccessControls
+//@   prop C16
+//@   ensures forall i int :: 0 <= i && i < len(result) ==> result[i] != nil
+//@   modifies none
